@@ -97,8 +97,14 @@ func AddHooks(ctx *core.Context, cronner Cronner, state core.State) error {
 		// Yikes!  The caller of this hook already has the state lock!
 		fact, err := state.Get(ctx, id)
 		if _, missing := err.(*core.NotFoundError); missing {
-			// Nothing there (or it has expired), so nothing
-			// could be scheduled.
+			// Nothing there any more.  If it was a scheduled
+			// rule that has expired, its job is still with the
+			// cron service, and nobody else will remove it.
+			// (For an id that was never scheduled this removes
+			// nothing.)
+			if cronner != nil {
+				cronner.Rem(ctx, id)
+			}
 			return nil
 		}
 		if err != nil {
